@@ -32,7 +32,12 @@ def _worst_case_generator(num_jobs, num_machines, max_num_ops, max_op_duration):
             shape = (self.num_jobs, self.max_num_ops)
             ops_machine_ids = jax.random.randint(mkey, shape, 0, self.num_machines)
             ops_durations = jnp.full(shape, self.max_op_duration, jnp.int32)
-            return State(
+            from harness import inject
+            from jumanji.environments.packing.job_shop.generator import RandomGenerator
+
+            tpl = RandomGenerator(self.num_jobs, self.num_machines, self.max_num_ops, self.max_op_duration)(key)
+            return inject.state_like(
+                tpl,
                 ops_machine_ids=ops_machine_ids,
                 ops_durations=ops_durations,
                 ops_mask=jnp.ones(shape, bool),
@@ -73,7 +78,10 @@ def _injected_generator(cfg):
     class InjectedGenerator(Generator):
         def __call__(self, key):
             j = key[1] % T["sc"].shape[0]
-            return State(ops_machine_ids=T["mid"][j], ops_durations=T["dur"][j], ops_mask=T["msk"][j],
+            from jumanji.environments.packing.job_shop.generator import RandomGenerator
+
+            tpl = RandomGenerator(k["num_jobs"], k["num_machines"], k["max_num_ops"], k["max_op_duration"])(key)
+            return inject.state_like(tpl, ops_machine_ids=T["mid"][j], ops_durations=T["dur"][j], ops_mask=T["msk"][j],
                          machines_job_ids=T["mj"][j], machines_remaining_times=T["mr"][j], action_mask=None,
                          step_count=T["sc"][j], scheduled_times=T["sch"][j], key=key)
 
